@@ -159,6 +159,14 @@ def gen_ops(r, events):
         kind = ev[0]
         if kind == "req":
             ops += [("mark", ev[1], ev[2]), request(ev[1], ev[2], r.randrange(65536)), ("update",), ("air",)]
+        elif kind == "reqbusy":
+            # the relayed request is followed in the RX FIFO by a frame the master has to pass on to an absent node (the
+            # failed transmission outlasts the first NETWORK_ACK wait) and by another node's frame, which is then read
+            # during the wait that follows the re-transmitted response
+            ops += [("mark", ev[1], ev[2], 3), request(ev[1], ev[2], r.randrange(65536)),
+                    ("inject", 0, 1, hdr(0o15, ev[3], r.randrange(65536), 1, 0) + b"fwd"),
+                    ("inject", 0, 1, hdr(0o2, 0, r.randrange(65536), ev[4], ev[5]) + bytes([ev[5], 0])),
+                    ("update",), ("air",)]
         elif kind == "relframe":
             ops += [release_frame(ev[1]), ("update",), ("air",)]
         elif kind == "relcall":
@@ -187,7 +195,7 @@ def run_events(rep, model, events_list, domain, r, specs=((0, "mesh", 0),)):
         marks = {}
         for op in ops:
             if not callable(op) and op[0] == "mark":
-                marks[len(real_ops) + 1] = (op[1], op[2])   # index of the update op that follows the inject
+                marks[len(real_ops) + (op[3] if len(op) > 3 else 1)] = (op[1], op[2])   # index of the update op that follows the inject(s)
             else:
                 real_ops.append(op)
         orig = chk.step
@@ -205,8 +213,53 @@ def run_events(rep, model, events_list, domain, r, specs=((0, "mesh", 0),)):
         NO.check_case(rep, model, [True] * len(specs), list(specs), real_ops, chk, domain)
 
 
+def busy_master_concurrent(rep, model, seed):
+    """concurrent part (corr/des.py): a request relayed by the absent level-2 node 0o25 reaches the master through the
+    present relay 0o5; the response needs a NETWORK_ACK that never comes, so the master transmits it twice and waits twice
+    (route_timeout each); a third node writes to the master at a time that falls into the first wait, the second wait, or
+    after both.  Whatever arrives while the master waits, the lease belongs to the ID the response carried."""
+    from . import des
+    for k, t_ns in enumerate([20_000_000, 60_000_000, 100_000_000, 120_000_000, 140_000_000, 400_000_000]):
+        specs = [(0, "mesh", 0), (1, "network", 0o5), (2, "network", 0o2)]
+        req = hdr(0o25, 0, 4242, 195, 21)
+        scripts = [
+            [("do", lambda run, t: run.world.inject(0, 1, req)), ("serve", 100_000, 300_000)],
+            [("serve", 100_000, 300_000)],
+            [("at", t_ns), ("call", ("nwrite", {"to": 0, "type": 1, "id": 77, "res": 0, "msg": b"while you wait"}, 0o70)),
+             ("serve", 100_000, 300_000)],
+        ]
+        run = des.Run(model, [True] * 3, specs, scripts, seed + k, 10_000, 0, horizon_ns=5_000_000_000)
+        run.go()
+        master = run.tasks[0].obj
+        tbl = dict(master.dhcp_dict)
+        case = {"concurrent": "busy master", "third_node_writes_at_ms": t_ns / 1e6, "table": {str(i): oct(a) for i, a in tbl.items()}}
+        rep.seen(case)
+        rep.count("busy-master-concurrent")
+        replies = [S.parse_hdr(e["data"]) for e in run.air if (S.parse_hdr(e["data"]) or {}).get("type") == 128 and e["from"] == 0]
+        verdict = None
+        for t in run.tasks:
+            if t.exc is not None:
+                verdict = ("C16/update-raised", "task %d: %r" % (t.idx, t.exc))
+        if verdict is None:
+            if not replies:
+                verdict = ("C16/no-reply-to-request", "relayed request of id 21 never answered")
+            else:
+                a = replies[0]["msg"][0] | replies[0]["msg"][1] << 8
+                if replies[0]["res"] != 21 or tbl.get(21) != a or any(i != 21 and x == a for i, x in tbl.items()) or set(tbl) - {21}:
+                    verdict = ("C16/reply-and-table-disagree",
+                               "the response gave %s to id %d; the table holds %s" % (oct(a), replies[0]["res"], case["table"]))
+        if verdict:
+            rep.finding(verdict[0], case, verdict[1])
+        for t in run.tasks:
+            d = run.replay(t)
+            if d is not None:
+                rep.disagree("busy-master-concurrent", dict(case, replay=d), d["model"], d["impl"], verdict[0] if verdict else None)
+                break
+
+
 def run(rep, model, tier, seed):
     r = common.rng(seed, "c16")
+    busy_master_concurrent(rep, model, seed)
     rep.rule = ("event sequences for a real mesh master: ALL sequences of length <= %d over {request(id in 3 ids, via in "
                 "direct/0o1/0o25), release frame/call of a leased address} plus random sequences to length 40 over ids 1..255, "
                 "relays of every level, full and nearly full parents, set_address, binary save/load and JSON load of tables with "
@@ -253,6 +306,13 @@ def run(rep, model, tier, seed):
                     [0o1, 0o2, 0o3, 0o14, 0o5, 0o4, 0o15], r.randrange(0, 4)))]))
         rnd.append(evs)
     run_events(rep, model, rnd, "random", r)
+    # a busy master: requests relayed by a level-2 node (the response needs a NETWORK_ACK) with other traffic queued behind
+    busy = []
+    for via in (0o25, 0o15, 0o125):
+        for absent in (0o3, 0o13, 0o4):
+            for typ, res in ((195, 77), (198, 0), (196, 0), (195, 0)):
+                busy.append([("req", None, 9), ("reqbusy", via, 21, absent, typ, res), ("req", via, 22), ("reqbusy", via, 23, absent, typ, res)])
+    run_events(rep, model, busy if tier != "quick" else busy[::3], "relayed-busy", r, specs=[(0, "mesh", 0), (1, "network", 0o5)])
     # persistence: tables of 0, 1, 2, 50, 255 entries; save in each format, load into the same master and into a fresh one
     pers = []
     all_addrs = [a for a in range(1, 0o5556) if valid(a) and a != 0o4444]
